@@ -1414,17 +1414,16 @@ DOMNode* DOMDocumentImpl::renameNode(DOMNode* n, const XMLCh* namespaceURI, cons
     if (n->getOwnerDocument() != this)
         throw DOMException(DOMException::WRONG_DOCUMENT_ERR, 0, getMemoryManager());
 
-    switch (n->getNodeType()) {
-        case ELEMENT_NODE:
-            return ((DOMElementImpl*)n)->rename(namespaceURI, name);
-        case ATTRIBUTE_NODE:
-            return ((DOMAttrImpl*)n)->rename(namespaceURI, name);
-        default:
-            break;
-    }
-    throw DOMException(DOMException::NOT_SUPPORTED_ERR, 0, getMemoryManager());
+    const NodeType type = n->getNodeType();
+    if (type != ELEMENT_NODE && type != ATTRIBUTE_NODE)
+        throw DOMException(DOMException::NOT_SUPPORTED_ERR, 0, getMemoryManager());
 
-    return 0;
+    if (!name || !isXMLName(name))
+        throw DOMException(DOMException::INVALID_CHARACTER_ERR, 0, getMemoryManager());
+
+    if (type == ELEMENT_NODE)
+        return ((DOMElementImpl*)n)->rename(namespaceURI, name);
+    return ((DOMAttrImpl*)n)->rename(namespaceURI, name);
 }
 
 void DOMDocumentImpl::release()
